@@ -173,3 +173,30 @@ Print Assumptions C04_seq_path_nothing_left_over.
 Theorem C04_seq_path_idle_when_no_generator : forall s, qreach s -> qalive s = false -> qrunning s = false /\ qiter s = false.
 Proof. exact seq_idle_when_no_generator. Qed.
 Print Assumptions C04_seq_path_idle_when_no_generator.
+
+(* ---- the backend refuses a batch at one of the caller's dispatches (submit raises): event ERefuse of M1.  It is part
+   of `reach`: every theorem above that is stated for reachable states also covers histories with refusals. *)
+Require Import JV.Proofs.ParallelRefuse.
+
+Theorem C04_refused_dispatch_is_raised : forall g s b, (phase s = StartFirst \/ phase s = StartLoop) ->
+  snd (dispatch_one_batch s b false) = true -> aborting (fst (dispatch_one_batch s b false)) = false ->
+  snd (step g s (ERefuse b)) = [Raised ErrBackend] /\
+  running (fst (step g s (ERefuse b))) = false /\ phase (fst (step g s (ERefuse b))) = Finished /\
+  jobs (fst (step g s (ERefuse b))) = [] /\ jset (fst (step g s (ERefuse b))) = [] /\
+  pend_out (fst (step g s (ERefuse b))) = [] /\ want (fst (step g s (ERefuse b))) = false /\
+  aborting (fst (step g s (ERefuse b))) = true /\ exception (fst (step g s (ERefuse b))) = true.
+Proof. exact refused_dispatch_is_raised. Qed.
+Print Assumptions C04_refused_dispatch_is_raised.
+
+Theorem C04_call_after_refusal_is_accepted : forall g s b cf n f, (phase s = StartFirst \/ phase s = StartLoop) ->
+  snd (dispatch_one_batch s b false) = true -> aborting (fst (dispatch_one_batch s b false)) = false ->
+  let s' := fst (step g s (ERefuse b)) in
+  fst (step_raw g s' (ECall cf n f)) = do_call s' cf n f.
+Proof. exact call_after_refusal_is_accepted. Qed.
+Print Assumptions C04_call_after_refusal_is_accepted.
+
+Example C04_refusal_example :
+  snd (run_events true init refuse_demo) =
+  [[]; []; [Raised ErrBackend]; []; []; []; []; []; []; []; []; [Val 0]; [Val 1]; [Stop]].
+Proof. exact refuse_demo_run. Qed.
+Print Assumptions C04_refusal_example.
